@@ -39,10 +39,19 @@ def main(chk):
         texts.append(('random', parsing.random_text(rnd)))
     for t in parsing.deep_texts():
         texts.append(('deep', t))
+    from props import forms
+    for x in forms.literal_scripts():
+        if x['what'] == 'comments':
+            texts.append(('comments', x['text']))
     uniq = {}
     for cls, t in texts:
         uniq.setdefault(t, cls)
     texts = [(c, t) for t, c in uniq.items()]
+    # every text through create_ast; the texts with comments and a sample of the others ALSO through prettify (the parser's second entry
+    # point): the same text then occurs several times in one history, parsed through both entry points in both orders
+    calls_ = [('create_ast', c, t) for c, t in texts]
+    calls_ += [('prettify', c, t) for c, t in texts if c == 'comments' or ('/*' in t or '//' in t) or rnd.random() < (0.15 if quick else 0.3)]
+    texts = [(c + ('' if op == 'create_ast' else ' via prettify'), (op, t)) for op, c, t in calls_]
     # reference history: every text parsed in a fixed order; other histories: shuffled, so that valid and invalid texts alternate in every possible way
     order = list(range(len(texts)))
     hist = [order]
@@ -64,7 +73,7 @@ def main(chk):
                 continue
             if i not in ref:
                 ref[i] = oc
-            t = texts[i][1]
+            t = texts[i][1][1]
             lines = t.split('\n')
             ln = oc.get('line', 0)
             # the engine reports the column in the line as it displays it: tabs expanded to 4 columns, carriage returns dropped
@@ -85,7 +94,7 @@ def main(chk):
     for c in calls:
         chk.add('evaluations')
         v = verdict[c['id']]
-        cls, t = texts[c['_i']]
+        cls, (op_, t) = texts[c['_i']]
         if v['ok']:
             chk.add('traces_validated_against_impl')
             distinct.add((c['_i'], c['kind']))
